@@ -35,6 +35,8 @@ import (
 	stakingtypes "github.com/cosmos/cosmos-sdk/x/staking/types"
 
 	band "github.com/bandprotocol/chain/v3/app"
+	tsskeeper "github.com/bandprotocol/chain/v3/x/tss/keeper"
+	tsstypes "github.com/bandprotocol/chain/v3/x/tss/types"
 
 	"verifsim/core"
 )
@@ -163,6 +165,11 @@ type World struct {
 	Mempool  []*Intent
 	nextIntent int
 	Deadlines []time.Time // published by monitors/actors, consumed by the time chooser
+	// FailAssign: block height -> which signing creation of that block (1 = first) fails right after the selected members'
+	// nonces were dequeued (fault point in x/tss, build tag verif). The decision depends only on the height and on the position
+	// within the block's execution, so every replica and every re-execution after a crash takes the same one.
+	FailAssign map[int64]int
+	assignIdx  int
 	Halt     *Halt
 	Divergence string
 	DivergedResp [2]*abci.ResponseFinalizeBlock // the two block responses that differed (first replica, diverging replica)
@@ -192,7 +199,19 @@ var defaultConsensusParams = &cmtproto.ConsensusParams{
 }
 
 func New(ch *core.Chooser, lg *core.Log, st *core.Stats, cfg Config, scratch string) (*World, error) {
-	w := &World{Ch: ch, Log: lg, Stats: st, Cfg: cfg, Blocks: map[int64]*BlockRecord{}, scratch: scratch}
+	w := &World{Ch: ch, Log: lg, Stats: st, Cfg: cfg, Blocks: map[int64]*BlockRecord{}, scratch: scratch, FailAssign: map[int64]int{}}
+	// cooperative fault point in x/tss (guarded by the verif build tag in /repo): see FailAssign
+	tsskeeper.VerifFailAfterDequeue = func(ctx sdk.Context) error {
+		if ctx.ExecMode() != sdk.ExecModeFinalize {
+			return nil
+		}
+		w.assignIdx++
+		if n, ok := w.FailAssign[ctx.BlockHeight()]; ok && n == w.assignIdx {
+			w.Stats.Fault("signing_creation_failed_after_nonce_dequeue")
+			return tsstypes.ErrCreateSigningFailed.Wrap("injected fault: the creation fails after the nonces were dequeued")
+		}
+		return nil
+	}
 	for i, tok := range cfg.ValTokens {
 		acc := NewAccount(cfg.Seed, fmt.Sprintf("val%d", i))
 		cons := cmtsecp.GenPrivKeySecp256k1([]byte(fmt.Sprintf("verif-cons-%d-%d", cfg.Seed, i)))
@@ -854,6 +873,7 @@ func (w *World) finalize(r *Replica, req *abci.RequestFinalizeBlock) (resp *abci
 	}()
 	wd := stallWatch("FinalizeBlock", r.ID, req.Height)
 	defer wd.Stop()
+	w.assignIdx = 0
 	resp, err := r.App.FinalizeBlock(req)
 	if err != nil {
 		w.Halt = &Halt{Replica: r.ID, Height: req.Height, Phase: "FinalizeBlock", Err: err.Error()}
